@@ -134,6 +134,16 @@ Theorem C12_composition_with_cursor : forall l ops l',
 Proof. exact fresh_client_composition_with_cursor. Qed.
 Print Assumptions C12_composition_with_cursor.
 
+(** The reference canvas with the cursor is an extension of the cursor-free one: under --nocursor (no
+    cursor is ever set) it IS the reference canvas and the reference size of [C12_composition]. *)
+From VD Require Import Proofs.CursorHistoryNoCursorP.
+Theorem C12_reference_with_cursor_extends : forall m px py ops,
+  let R := fold_left (ref_lstep m true px py) ops r0 in
+  rf R = fold_left ref_step (sops_of m ops) (fun _ _ => black) /\
+  rsz R = fold_left ref_size (sops_of m ops) None.
+Proof. exact ref_with_cursor_extends_cursor_free. Qed.
+Print Assumptions C12_reference_with_cursor_extends.
+
 Example C12_cursor_history_nonvacuous :
   let px (r g b : Z) := [r; g; b; 0] in
   let ops := [ LUpdate 1 1 1 1 (px 10 20 30);
